@@ -19,6 +19,11 @@ PLANS = {
             'thorough': [E('C12', 'plain', 1040 + 1200, 7200, enumerate=True, run_wall_s=600,
                            prep=['build/plain/texelsim dtm all3 KQQvK KQRvK KQBvK KQNvK KRRvK', 'build/plain/texelsim dtm KRBvK KRNvK KBBvK KBNvK KNNvK',
                                  'build/plain/texelsim dtm KQvKQ KQvKR KQvKB KQvKN KRvKR', 'build/plain/texelsim dtm KRvKB KRvKN KBvKB KBvKN KNvKN'])]},
+    'C13': {'quick': [E('C13', 'plain', 1200, 100, run_wall_s=120,
+                        prep=['build/plain/texelsim dtm all3', 'build/plain/texelsim dtm KQvKR', 'build/plain/texelsim dtm KRBvK'])],
+            'thorough': [E('C13', 'plain', 20000, 7200, run_wall_s=300,
+                           prep=['build/plain/texelsim dtm all3 KQQvK KQRvK KQBvK KQNvK KRRvK', 'build/plain/texelsim dtm KRBvK KRNvK KBBvK KBNvK KNNvK',
+                                 'build/plain/texelsim dtm KQvKQ KQvKR KQvKB KQvKN KRvKR', 'build/plain/texelsim dtm KRvKB KRvKN KBvKB KBvKN KNvKN'])]},
     'C14': {'quick': [E('C14', 'plain', 400, 110, run_wall_s=120)],
             'thorough': [E('C14', 'plain', 10000, 3600, run_wall_s=300)]},
     'C06': {'quick': [E('C06', 'plain', 2500, 100)],
